@@ -136,9 +136,29 @@ def _buffer(ns, a, n, writes):
         elif kind == 'mix': b[i] = b[(i + 1) % n] + 3.0 * a[j]
     return b
 
-@op('buffer_views', 1, lambda s, p: (2,) if p['mode'] == 'read' else (3,), poly=True)
+@op('buffer_views', 1, lambda s, p: {'read': (2,), 'write': (3,), 'rewrite': (2,), 'reread': (2,)}[p['mode']], poly=True)
 def _buffer_views(ns, a, mode):
-    """aliasing patterns: a view taken BEFORE the write and read afterwards; a write THROUGH a view, read through the buffer"""
+    """aliasing patterns: a view taken BEFORE the write and read afterwards; a write THROUGH a view, read through the buffer;
+    an entry overwritten several times and then read by a non-linear operation; the same basic index read before and after a write
+    that went through an aliasing handle"""
+    if mode == 'rewrite':
+        y = ns.zeros(2, dtype=a)
+        y[0] = a[0] * a[1]
+        y[0] = y[0] * a[2]              # second write into the same slot
+        y[1] = y[0] * y[0] + a[3]       # non-linear use of the slot after its last write
+        return y
+    if mode == 'reread':
+        b = ns.zeros((2, 2), dtype=a)
+        b[0, 1] = a[0] * a[1]
+        r1 = b[0, 1]
+        t = r1 * a[2] + 1.0             # uses the first value
+        row = b[0]
+        row[1] = t                      # overwrite through another handle of the same memory
+        r2 = b[0, 1]                    # the identical index again: must see the new value
+        out = ns.zeros(2, dtype=a)
+        out[0] = r2 * a[3]
+        out[1] = t
+        return out
     b = ns.zeros(3, dtype=a)
     if mode == 'read':
         v = b[0:2]                      # view first
@@ -243,7 +263,7 @@ def single_op_programs(N=4):
     for k, writes in enumerate([[(0, 'copy', 0), (1, 'sq', 1)], [(0, 'copy', 0), (0, 'acc', 1), (1, 'copy', 2 % N)], [(0, 'sq', 0), (0, 'acc', 1), (0, 'acc', 0)],
                                 [(0, 'const', 0), (1, 'mix', 1), (0, 'copy', 0)], [(1, 'copy', 0), (0, 'mix', 1), (1, 'acc', 1)]]):
         out.append(Program(N, [(1, 'buffer', (0,), {'n': 2, 'writes': writes})], 'buffer%d' % k))
-    for mode in ('read', 'write'):
+    for mode in ('read', 'write', 'rewrite', 'reread'):
         out.append(Program(N, [(1, 'buffer_views', (0,), {'mode': mode})], 'buffer_views[%s]' % mode))
         out.append(Program(N, [(1, 'sin', (0,), {}), (2, 'buffer_views', (1,), {'mode': mode}), (3, 'exp', (2,), {})], 'buffer_views[%s]+' % mode))
     return [p for p in out if p.shapes() is not None]
